@@ -352,6 +352,14 @@ class BaseWSGIServer(wasyncore.dispatcher):
             if (not channel.requests) and channel.last_activity < cutoff:
                 channel.will_close = True
 
+                if getattr(channel, "total_outbufs_len", 0):
+                    # Output is pending although nothing could be sent for
+                    # channel_timeout seconds: the peer does not read, so the
+                    # writable event that closes the channel would never
+                    # come. Close it from the event phase of the next loop
+                    # turn (not here, poll() is collecting descriptors).
+                    self.trigger.pull_trigger(channel.handle_close)
+
     def print_listen(self, format_str):  # pragma: no cover
         self.log_info(format_str.format(self.effective_host, self.effective_port))
 
